@@ -17,6 +17,7 @@ def materialize(scratch: str, case: dict, name: str = "w") -> core.Sim:
         day=int(case.get("day0", core.EPOCH_DAY)),
         dirent=world.get("dirent", "sorted"),
         cfg=case.get("cfg") or {},
+        home=world.get("home", "org"),
     )
     for rel, text in sorted(world["files"].items()):
         user._write(os.path.join(sim.zdir, rel), text)
